@@ -163,18 +163,28 @@ Proof.
   unfold run_handle_on. apply (C15_checked_predicate b [] [] _).
 Qed.
 
-(* identifiers are never stepped back: the n-th identifier handed out depends on the start value
-   and on n only — [issued s n] — whatever happens to the requests in between (acknowledged,
-   abandoned, write rejected); dropping all end-of-request events from a history changes neither
-   the identifiers nor the counter. The fault-injection family leans on this. *)
-Theorem C15_never_stepped_back : forall s h,
+(* identifiers are never stepped back, and nothing the broker sends moves them: the n-th identifier
+   handed out depends on the start value and on n only — [issued s n] — whatever happens in between:
+   requests acknowledged, abandoned, their write rejected, and INBOUND packets of any kind carrying
+   any identifier (HIn / LIn: PUBLISH QoS 0/1/2, PUBREL; the two directions are independent name
+   spaces). Dropping all these events from a history or a schedule changes neither the identifiers
+   nor the counter. The fault-injection and inbound-traffic families lean on this. *)
+Theorem C15_never_stepped_back : forall s h progs sched,
   auto_ids (run_seq s h) = auto_ids (run_seq s (filter is_hreq h)) /\
   final_counter s h = final_counter s (filter is_hreq h) /\
-  auto_ids (run_seq s h) = issued_list s 0 (length (auto_ids (run_seq s h))).
+  auto_ids (run_seq s h) = issued_list s 0 (length (auto_ids (run_seq s h))) /\
+  auto_ids (run_conc s progs sched) = auto_ids (run_conc s progs (filter is_lstep sched)).
 Proof.
-  intros s h. destruct (ids_ignore_ends s h) as [H1 H2].
-  split; [exact H1|]. split; [exact H2 | apply run_seq_canonical].
+  intros s h progs sched. destruct (ids_ignore_ends s h) as [H1 H2].
+  split; [exact H1|]. split; [exact H2|]. split; [apply run_seq_canonical | apply conc_ignores_inbound].
 Qed.
+
+(* non-vacuity: inbound packets with the most awkward identifiers between the requests *)
+Example C15_inbound_example :
+  auto_ids (run_seq 65532 [HReq RSub; HReq (RPub 1 0); HReq RUnsub; HReq (RPub 2 0); HIn 1 65533;
+                           HIn 2 65535; HIn 3 1; HIn 0 0; HReq RSub; HReq (RPub 1 0)])
+  = [65533; 65534; 65535; 1; 2; 3].
+Proof. vm_compute; reflexivity. Qed.
 
 Print Assumptions C15_nonzero.
 Print Assumptions C15_nonzero_seq.
